@@ -20,6 +20,7 @@ Column kinds used in plans (values are plain Python data):
 
 import datetime
 import math
+import os
 
 import numpy as np
 import dataiter as di
@@ -116,7 +117,23 @@ VIA = {
     "select_all": lambda d: d.select(*dict.keys(d)),
     "rbind_halves": lambda d: d.head(d.nrow // 2).rbind(d.tail(d.nrow - d.nrow // 2)),
     "modify_nothing": lambda d: d.modify(),
+    "from_pandas": lambda d: di.DataFrame.from_pandas(d.to_pandas()),
+    "from_arrow": lambda d: di.DataFrame.from_arrow(d.to_arrow()),
+    "parquet": lambda d: _through_file(d, "parquet"),
+    "npz": lambda d: _through_file(d, "npz"),
+    "pickle": lambda d: _through_file(d, "pickle"),
+    "sorted_by_rid": lambda d: d.sort(**{next(k for k in dict.keys(d) if k.startswith("_") and k.endswith("_")): 1}),
+    "left_join_nothing": lambda d: d.left_join(di.DataFrame({next(iter(dict.keys(d))): d[next(iter(dict.keys(d)))][:0]}), next(iter(dict.keys(d)))),
 }
+
+
+def _through_file(d, fmt):
+    import tempfile
+    with tempfile.TemporaryDirectory(prefix="verif-via-") as tmp:
+        path = os.path.join(tmp, "t." + {"pickle": "pkl"}.get(fmt, fmt))
+        getattr(d, "write_" + fmt)(path)
+        return getattr(di.DataFrame, "read_" + fmt)(path)
+
 
 
 def fp_nrow(fp):
